@@ -146,13 +146,14 @@ Print Assumptions impl_vs_doc_delta.
     inferred argument and a trailing fill, a postfix access and a renamed export is accepted by both
     grammars with the same tree; hence (by [parse_sound]) both derivation relations are inhabited. *)
 Example both_grammars_inhabited :
-  exists doc, g_document impl_flags (lex impl_cfg w_common) [] doc /\ g_document doc_flags (lex doc_cfg w_common) [] doc.
+  exists doc, g_document impl_flags (lex (cfg_with impl_flags impl_cfg) w_common) [] doc /\
+              g_document doc_flags (lex (cfg_with doc_flags doc_cfg) w_common) [] doc.
 Proof.
   destruct common_accepted as [Hok Heq].
   destruct (parse_document impl_flags impl_cfg w_common) as [doc r| | | |] eqn:E; try discriminate Hok.
   destruct r; try discriminate Hok. exists doc. split.
-  - now apply (parse_sound impl_flags impl_cfg) in E.
-  - symmetry in Heq. now apply (parse_sound doc_flags doc_cfg) in Heq.
+  - exact (proj2 (parse_sound _ _ _ _ _ E)).
+  - symmetry in Heq. exact (proj2 (parse_sound _ _ _ _ _ Heq)).
 Qed.
 
 (* Stated, not proved in this development (see [lex_sound_partial] above for what is):
